@@ -252,8 +252,10 @@ func (w *world) conservation() {
 		case inFree[f] == 0:
 			class := "other"
 			switch {
-			case f.uses == 0 && f.creator.done && f.creator.err != nil:
+			case f.uses == 0 && f.creator.done && f.creator.err != nil && w.anonReleases == 0:
 				class = "creator-gave-up-during-create"
+			case f.uses == 0 && w.anonReleases > 0:
+				class = "released-but-not-idle"
 			case f.uses == 0:
 				class = "never-handed-out"
 			case f.uses > 0:
